@@ -47,6 +47,7 @@ CHECKS = {
     "C13": [("R-MPFZERO", "r_mpfzero", "run", ("quick", "thorough")),
             ("R-EXTENT.c13", "r_alias", "run_c13", ("quick", "thorough"))],
     "C12": [("R-SIGN", "r_sign", "run", ("quick", "thorough"))],
+    "C07": [("R-SIGN.c07", "r_sign", "run_c07", ("quick", "thorough"))],
     "C14": [("R-PURE", "r_assert", "run_pure", ("quick", "thorough")),
             ("R-CONSTASSERT", "r_assert", "run_constassert", ("quick", "thorough")),
             ("R-TMP.modes", "r_tmp", "run_modes", ("quick", "thorough")),
@@ -96,9 +97,15 @@ RULES = {
     "R-ALIAS.c03": ("r_alias", "run_c03"),
     "R-NORM.c03": ("r_norm", "run_c03"),
     "R-SIGN": ("r_sign", "run"),
+    "R-SIGN.c07": ("r_sign", "run_c07"),
 }
 
 EXPLANATION = {
+    "C07": "Decides one clause of the statement: the results the manual documents as non-negative are non-negative - g of mpz_gcd and "
+           "mpz_gcdext, mpz_lcm, mpz_lcm_ui, and the inverse of mpz_invert on every exit that reports an inverse ('in [0, |m|)').  Same "
+           "sign-domain abstract interpretation as C12's R-SIGN (integer operands of any sign, every aliasing of the result with an operand; "
+           "mpz_gcdext's cofactors take every sign).  Three-valued; the gcd value, the cofactor identity and bounds and the symbols are values "
+           "and are not decided.",
     "C12": "Decides one clause of 'every result is canonical': the denominator of every result is positive.  Sign-domain abstract "
            "interpretation (subsets of {negative, zero, positive}) over the Clang CFG of every function in mpq/ that produces a rational, for "
            "canonical inputs of every sign and every permitted aliasing of the result with an operand (each alias scenario analysed with the "
@@ -200,6 +207,9 @@ EXPLANATION = {
 }
 
 ASSUMPTIONS = {
+    "R-SIGN.c07": ["same engine and assumptions as R-SIGN; object-pointer parameters that the function redirects (MPZ_SRCPTR_SWAP) name any of "
+                   "the objects they are ever assigned: reads through them are inexact, writes are weak updates",
+                   "the table of documented non-negative results (py/r_sign.py NONNEG_RESULTS) is read off the manual's number-theoretic chapter"],
     "R-SIGN": ["entry model from the manual: operands are canonical (denominator positive), numerators and integer arguments have any sign, "
                "chosen independently; mpq_canonicalize gets any non-zero denominator", "sign algebra of the mpz functions used (mul, divexact, "
                "divexact_gcd with a positive divisor, gcd, set, neg, abs, add, sub, mul_2exp, swap) is taken from the manual; every other callee "
